@@ -308,6 +308,12 @@ def evaluate(child):
                               sorted((k, core.digest(v)) for k, v in child.tree.items() if not k.startswith('tmpd')),
                               [[f['property'], f['invariant']] for f in child.failed]])
     stats.states.add(core.digest([child.stages]))
+    if child.task.get('want_tree'):
+        res['final_tree'] = [[k, core.b64(v)] for k, v in sorted(child.tree.items()) if not k.startswith('tmpd') and k != 'input.pdb']
+    if child.finalise_outcome == 'crash':
+        # the driver may simulate the user starting the program again in this directory
+        res['crashed_tree'] = [[k, core.b64(v)] for k, v in sorted(child.tree.items())
+                               if not k.startswith('tmpd') and k != 'input.pdb']
     res.update({'failed': child.failed, 'topology': topology, 'stats': stats.to_json(), 'digest': run_digest,
                 'finished': finished,
                 'events_tail': [[lvl, t, (m or '')[:160]] for lvl, t, m in child.recorder.records if lvl >= logging.WARNING][-12:]})
